@@ -102,7 +102,14 @@ impl Parser {
 
             match name.to_string().as_str() {
                 "crate" => match value {
-                    NestedValue::Assign(logos_path) => self.logos_path = Some(logos_path),
+                    NestedValue::Assign(logos_path) => {
+                        let span = logos_path.span();
+
+                        if let Some(previous) = self.logos_path.replace(logos_path) {
+                            self.err("Crate path can be defined only once", span)
+                                .err("Previous definition here", previous.span());
+                        }
+                    }
                     _ => {
                         self.err("Expected: #[logos(crate = path::to::logos)]", span);
                     }
